@@ -907,23 +907,24 @@ class sptensor:
             if self.shape != other.shape:
                 assert False, "Sptensors must be same shape for innerproduct"
 
-            if other.nnz == 0:  # other sptensor is all zeros
+            if self.nnz == 0 or other.nnz == 0:  # either sptensor is all zeros
                 return 0
 
             if self.nnz < other.nnz:
                 [subsSelf, valsSelf] = self.find()
-                valsOther = other[subsSelf]
+                valsOther = other.extract(subsSelf)
             else:
                 [subsOther, valsOther] = other.find()
-                valsSelf = self[subsOther]
+                valsSelf = self.extract(subsOther)
             return valsOther.transpose().dot(valsSelf).item()
 
         if isinstance(other, ttb.tensor):
             if self.shape != other.shape:
                 assert False, "Sptensor and tensor must be same shape for innerproduct"
-            [subsSelf, valsSelf] = self.find()
-            valsOther = other[subsSelf]
-            return valsOther.transpose().dot(valsSelf).item()
+            if self.nnz == 0:
+                return 0
+            valsOther = self._vals_of(other)
+            return valsOther.transpose().dot(self.vals).item()
 
         if isinstance(other, (ttb.ktensor, ttb.ttensor)):  # pragma: no cover
             # Reverse arguments to call ktensor/ttensor implementation
